@@ -423,7 +423,8 @@ def bool_atom(n):
             if nm in ("has_value", "operator bool", "good") and callee.get("c"):
                 n = callee["c"][0]
                 continue
-            if nm in ("fail", "bad", "operator!") and callee.get("c"):
+            # NB: bad() is not the negation of good(): failbit alone leaves bad() false
+            if nm in ("fail", "operator!") and callee.get("c"):
                 pos = not pos
                 n = callee["c"][0]
                 continue
